@@ -12,15 +12,11 @@ def run_probe_env(ctx, suite, cases, env, tag):
     with open(path, "w") as f:
         for c in cases:
             f.write(json.dumps(c) + "\n")
-    rc, out, _ = sh([os.path.join(BUILD, "bclprobe"), suite], input=open(path, "rb").read(), env=dict(os.environ, **env), timeout=1800)
-    res = {}
-    for line in out.splitlines():
-        if line.startswith("{"):
-            try:
-                r = json.loads(line)
-                res[r["id"]] = r
-            except Exception:
-                pass
+    res, missing, tail = ctx.run_probe([os.path.join(BUILD, "bclprobe"), suite], cases, 1800, dict(os.environ, **env))
+    for cid in missing[:2]:
+        ctx.violation("the call never returned a result: the probe had to be ended while running this case (%s)" % ctx.died.get(cid, "")[:200],
+                      dict(suite=suite, case={k: (v if len(str(v)) < 2000 else str(v)[:2000]) for k, v in ctx.case_by_id.get(cid, {}).items()}),
+                      key="probe-crash", theorem="C16")
     return res
 
 
@@ -69,15 +65,30 @@ def check_C16(ctx):
     ]
     for i, (ty, blks) in enumerate(extra):
         bcs.append(dict(id="x%d" % i, mode="ptr", type=ty, bkind="struct", blocks=blks, prev=0))
+    # same-named distinct types bound in both orders within one process; a long slice with several faulty elements
+    L1 = (dict(k="named", name="Listener#1"), [dict(t="listener", n="pub", f=[["listen", "i8080"], ["iface", "s65746830"]])])
+    L2 = (dict(k="named", name="Listener#2"), [dict(t="listener", n="priv", f=[["listen", "s65746831"], ["port", "i22"]])])
+    for i, (ty, blks) in enumerate([L1, L2, L1, L2]):
+        bcs.append(dict(id="lst%d" % i, mode="ptr", type=ty, bkind="struct", blocks=blks, prev=0))
+    long_blocks = [dict(t="a", n="n%d" % i, f=[["x", "i%d" % i]] + ([["oops%d" % i, "i1"]] if i == 67 or i >= 128 else [])) for i in range(256)]
+    bcs.append(dict(id="long", mode="ptr", type=dict(k="slice", elem=T(fld("Name", STR), fld("X", INT))), bkind="slice", blocks=long_blocks, prev=0))
     for c in bcs:
         c["repeat"] = 40
     bres = run_probe_env(ctx, "bind", bcs, {}, "bind")
+    from .p_bind import model_item
+    mb = ctx.model([model_item(c) for c in bcs])
     nb = 0
     for c in bcs:
         r = bres.get(c["id"])
         if not r:
             continue
         nb += 1
+        if r.get("class") == "ok" and mb.get(c["id"]) is not None and r.get("obs") != mb[c["id"]]:
+            # the outcome of a call depends on nothing but its arguments: the model computes it from them alone
+            ctx.violation("Bind outcome %r differs from the outcome determined by the arguments alone %r (earlier calls in the "
+                          "process must not matter)" % ((r.get("obs") or "")[:160], mb[c["id"]][:160]),
+                          dict(id=c["id"], type=c["type"], blocks=c["blocks"][:3]), impl=r, model=mb[c["id"]],
+                          theorem="C16_bind_order", key="bind-history")
         ctx.count(40, casehash(json.dumps(c, sort_keys=True)))
         if r.get("distinct", 1) != 1:
             ctx.violation("Bind gave %d different outcomes over 40 calls (map iteration order)" % r["distinct"],
